@@ -297,7 +297,7 @@ func (r *Runner) cfg(tok string) (cfgArgs, error) {
 		c.m, c.efc, c.lang = 16, 200, ""
 	case 1:
 		// efConstruction 2: the block-reservation path of AddBatch is taken as soon as two ids were allocated
-		c.m, c.efc, c.lang = 4, 2, "english"
+		c.m, c.efc, c.lang = 2, 2, "english" // M=2: the block path of AddBatch starts at 5 ids handed out (max(efConstruction, 2*M+1))
 	default:
 		c.m, c.efc, c.lang = 8, 100, "italian"
 	}
